@@ -62,7 +62,7 @@ def IsSeqPrefix (t : Table) (v : Bytes) : Prop := ∃ lit ∈ seqLits t, matchPr
 
 /-- what the scanner may hold back when it returns `consumed = n` on the slice `inp` -/
 def HeldOk (t : Table) (inp : Bytes) (n : Nat) : Prop :=
-  n ≤ inp.length ∧ ∃ w v, inp.drop n = w ++ v ∧ (w = [] ∨ isTagHeadPrefix w = true) ∧ (v = [] ∨ IsSeqPrefix t v)
+  ∃ w v, inp.drop n = w ++ v ∧ (w = [] ∨ isTagHeadPrefix w = true) ∧ (v = [] ∨ IsSeqPrefix t v)
 
 /-! ### the side-condition -/
 
